@@ -265,9 +265,10 @@ def canon(out, name):
     return res
 
 
-def run_bct(bct, name, Wf, t=5.0):
-    """-> ('ok', canon) | ('exc', msg) | ('timeout', None); the argument is a private copy"""
-    st, out = call(bct_funcs(bct)[name], Wf.copy(), t=t)
+def run_bct(bct, name, Wf, t=5.0, copy=True):
+    """-> ('ok', canon) | ('exc', msg) | ('timeout', None); the argument is a private copy (copy=False: the caller built a
+    fresh array in a specific dtype / memory layout, which a copy would normalise)"""
+    st, out = call(bct_funcs(bct)[name], Wf.copy() if copy else Wf, t=t)
     if st != 'ok':
         return st, out
     try:
@@ -293,17 +294,75 @@ def parse_model(line, name):
     return res
 
 
-def same(py, ex, exact):
+def same(py, ex, exact, tol=TOL):
     """py: float or None (non-finite); ex: Fraction or None"""
     if ex is None or py is None:
         return ex is None and py is None
     if exact:
         return py == float(ex)
-    return abs(py - float(ex)) <= TOL * max(1.0, abs(float(ex)))
+    return abs(py - float(ex)) <= tol * max(1.0, abs(float(ex)))
 
 
-def same_vec(pys, exs, exact):
-    return len(pys) == len(exs) and all(same(p, e, exact) for p, e in zip(pys, exs))
+def same_vec(pys, exs, exact, tol=TOL):
+    return len(pys) == len(exs) and all(same(p, e, exact, tol) for p, e in zip(pys, exs))
+
+
+# ------------------------------------------------------------------ representation axis: dtype and memory layout of the same network
+
+DT_BIN = ['int64', 'bool', 'float32', 'uint8', 'int32', 'float64']     # 0/1 matrices
+DT_W = ['float32', 'float64']                                          # weighted matrices
+ORDERS = ['F', 'C', 'T', 'S']      # Fortran copy, C copy, transposed view of a C array, strided view into a larger array
+WEIGHTED = {'cc_wu', 'cc_wd', 'trans_wu', 'trans_wd', 'cc_sign_default', 'cc_sign_zhang', 'cc_sign_costantini'}
+
+
+def represent(Wf, dtype, order):
+    """the same matrix, freshly built in the given dtype and memory layout"""
+    X = np.asarray(Wf).astype(dtype)
+    n = len(X)
+    if order == 'F':
+        return np.asfortranarray(X)
+    if order == 'T':
+        return np.ascontiguousarray(X.T).T
+    if order == 'S':
+        big = np.zeros((2 * n, 2 * n), dtype=dtype)
+        big[::2, ::2] = X
+        return big[::2, ::2]
+    return np.ascontiguousarray(X)
+
+
+def rep_tol(dtype):
+    return 1e-5 if dtype == 'float32' else TOL
+
+
+def is_int_dtype(dtype):
+    return dtype.startswith(('int', 'uint')) or dtype == 'bool'
+
+
+def rejected_exc(dtype, msg):
+    """visible rejections of a storage type, outside the routines' domain (DESIGN 2.5): routines that store np.inf into an
+    integer array derived from the argument raise OverflowError; the weighted routines (np.sign / unary minus) raise a
+    TypeError on bool arrays.  Counted, no claim — a *silent* wrong value is never excused."""
+    if is_int_dtype(dtype) and msg.startswith('OverflowError') and 'infinity' in msg:
+        return True
+    return dtype == 'bool' and msg.startswith(('UFuncTypeError', 'TypeError'))
+
+
+def add_reps(rs, cases, frac, binary_kinds, weighted_kinds):
+    """append, for a fraction of the cases, a copy that is to be evaluated in another dtype / memory layout"""
+    out = []; kb = kw = 0
+    for c in cases:
+        if rs.rand() >= frac:
+            continue
+        if c['kind'] in binary_kinds:
+            dt = DT_BIN[kb % len(DT_BIN)]; od = ORDERS[(kb // len(DT_BIN)) % len(ORDERS)]; kb += 1
+        elif c['kind'] in weighted_kinds:
+            dt = DT_W[kw % len(DT_W)]; od = ORDERS[(kw // len(DT_W)) % len(ORDERS)]; kw += 1
+            if dt == 'float64' and od == 'C':
+                od = 'F'
+        else:
+            continue
+        out.append(dict(c, rep={'dtype': dt, 'order': od}, tag=c['tag'] + '+rep'))
+    return out
 
 
 def run_driver_par(main, lines, k=4):
